@@ -435,6 +435,9 @@ func (g *VCGen) appendBuiltin(c *ssa.CallCommon, pos token.Pos, v *ssa.Call) Spe
 	nb := g.newRef()
 	ncap := g.freshConst("append!cap", "Int")
 	g.assume(fmt.Sprintf("(>= %s (+ %s %s))", ncap, sl, n))
+	if !zeroSized(st.Elem()) {
+		g.assume(fmt.Sprintf("(<= %s 281474976710656)", ncap))
+	}
 	srcArr := fmt.Sprintf("(select %s (s.base %s))", h, t.T)
 	dstArr := fmt.Sprintf("(select %s (s.base %s))", h, s.T)
 	arrSort := "(Array Int " + es + ")"
